@@ -2,8 +2,12 @@
 """Regenerates the seeded-changes table in DESIGN.md from seeded/*/meta.json."""
 import json,glob,re
 rows=[]
+obsolete=[]
 for f in sorted(glob.glob('/verif/seeded/*/meta.json')):
     m=json.load(open(f))
+    if m.get('obsolete'):
+        obsolete.append((m['seeded_id'],m.get('note','')))
+        continue
     c=m.get('confirmed',{})
     ok = c.get('baseline_tests_pass_with_change') and str(c.get('demo_with_change','')).startswith('FAIL') and str(c.get('demo_without_change','')).startswith('ok')
     rows.append((m['seeded_id'],m['property'],', '.join(m.get('files',[])),m['summary'].replace('|','/')[:160],m['needs'].replace('|','/')[:170],'yes' if ok else 'NO',', '.join(m.get('detected_by',[])) or '**missed**', m.get('tier','quick'), m.get('note','')))
@@ -13,6 +17,9 @@ for r in rows:
 caught=sum(1 for r in rows if r[6]!='**missed**')
 out.append("")
 out.append("%d seeded changes on file, %d caught by the listed checks."%(len(rows),caught))
+for o in obsolete:
+    out.append("")
+    out.append("%s: %s"%o)
 s=open('/verif/DESIGN.md').read()
 s=re.sub(r'<!-- SEEDED-TABLE-BEGIN -->.*<!-- SEEDED-TABLE-END -->','<!-- SEEDED-TABLE-BEGIN -->\n'+'\n'.join(out)+'\n<!-- SEEDED-TABLE-END -->',s,flags=re.S)
 open('/verif/DESIGN.md','w').write(s)
